@@ -9,7 +9,12 @@ Dtool_<lib>_RegisterTypes() / LibraryDef array / BuildInstants in the generated 
 "Circular dependency" reports and the printed cycles must EQUAL what the spec's mechanism computed;
 acyclic samples are compiled against the shims and imported; a missing / truncated / garbage .in
 must give exit != 0 and no output file; the ModDep/ModPlace/ModReport/ModBreak hook trace of every
-module run is validated against ModuleInitTrace."""
+module run is validated against ModuleInitTrace.
+The replay matrix: library kinds {classes, free functions only, types only (enum), nothing published}
+x naming {-library = -module, -library != -module, dotted module names, library names that are
+prefixes of each other} x every .in order (+ a .in named twice) for -python-native; the -python
+back-end's method table (every wrapper of every library of the module exactly once, none of a
+foreign module); the same class exported by two libraries (weak bases-first + trace only)."""
 import os, re, json, itertools, hashlib, subprocess, sysconfig, shutil
 from ..common import MachineryError, REPO, NCPU, SHIMS
 from .. import build, tlc, run
@@ -23,7 +28,12 @@ SCHEMES = [
     ["Lib10", "Lib2", "Lib3", "Lib4", "Lib5"],
     ["Zeta", "alpha", "beta", "delta", "eps"],
     ["A_", "Aa", "B0", "B_", "Ba"],
+    ["L", "L1", "L10", "L1_a", "La"],            # names that are prefixes of each other
 ]
+# (-module, -library of interrogate_module): equal, different, dotted module names, one a prefix of the other
+NAMINGS = [("M", "M"), ("M", "core"), ("pkg.core", "core"), ("pkg.sub.mod", "mod_x"), ("corelib", "core")]
+K_DUP = "C16-python-duplicate-in"
+K_NOOC = "C16-load-not-checked-without-oc"
 for _s in SCHEMES:
     assert sorted(_s, key=lambda x: x.encode()) == _s
 
@@ -33,7 +43,11 @@ MAX_HANGS = 2
 
 
 def ghash(rec):
-    return int(hashlib.sha256(json.dumps([rec["n"], rec["g"]]).encode()).hexdigest()[:8], 16)
+    return int(hashlib.sha256(json.dumps([rec["n"], rec["kinds"], rec["g"]]).encode()).hexdigest()[:8], 16)
+
+
+def gkey(rec):
+    return json.dumps([rec["kinds"], rec["g"]])
 
 
 def edge_kind(variant, a, b):
@@ -58,8 +72,17 @@ def render(rec, names, variant, root):
     for i in range(1, n + 1):
         d = os.path.join(root, "src", names[i - 1])
         os.makedirs(d, exist_ok=True)
-        base = ["#pragma once", "class X%d {" % i, "__published:", "  X%d() {}" % i,
-                "  int fx%d() { return %d; }" % (i, i), "};"]
+        kind = rec["kinds"][i - 1]
+        if kind == "both":
+            base = ["#pragma once", "class X%d {" % i, "__published:", "  X%d() {}" % i,
+                    "  int fx%d() { return %d; }" % (i, i), "};"]
+        elif kind == "funcs":          # only free functions, no type at all
+            base = ["#pragma once", "__begin_publish", "inline int ff%d(int a) { return a + %d; }" % (i, i),
+                    "inline double fg%d(double x) { return x * %d; }" % (i, i), "__end_publish"]
+        elif kind == "types":          # only a type without any function
+            base = ["#pragma once", "__begin_publish", "enum E%d { e%d_a, e%d_b = 5 };" % (i, i, i), "__end_publish"]
+        else:                          # nothing published
+            base = ["#pragma once", "class H%d { public: int x; };" % i, "int hidden%d(int a);" % i]
         for a in alias_needed.get(i, []):
             base.append("typedef X%d X%dalias%d;" % (i, i, a))
         open(os.path.join(d, names[i - 1] + "_base.h"), "w").write("\n".join(base) + "\n")
@@ -87,7 +110,7 @@ def render(rec, names, variant, root):
     os.makedirs(os.path.join(root, "out"), exist_ok=True)
 
 
-def interrogate_libs(rec, names, root):
+def interrogate_libs(rec, names, root, module="M", backend=("-python-native",), prefix=""):
     """interrogate per library: the library's two headers are named on the command line, the
     other libraries' headers are reachable through -I only (known, not re-exported)."""
     n = rec["n"]
@@ -96,11 +119,11 @@ def interrogate_libs(rec, names, root):
     for nm in names[:n]:
         incs += ["-I", "../src/" + nm]
     for nm in names[:n]:
-        r = run.run_tool("interrogate", ["-python-native", "-module", "M", "-library", nm,
-                                         "-od", nm + ".in", "-oc", nm + ".cxx"] + incs +
+        r = run.run_tool("interrogate", list(backend) + ["-module", module, "-library", nm,
+                                         "-od", prefix + nm + ".in", "-oc", prefix + nm + ".cxx"] + incs +
                          ["../src/%s/%s_base.h" % (nm, nm), "../src/%s/%s.h" % (nm, nm)],
-                         cwd=out, timeout=120, outputs=(nm + ".in",))
-        if r.rc != 0 or not r.outputs[nm + ".in"]:
+                         cwd=out, timeout=120, outputs=(prefix + nm + ".in",))
+        if r.rc != 0 or not r.outputs[prefix + nm + ".in"]:
             raise MachineryError("interrogate failed on a generated library header (%s, graph %r): rc=%s\n%s"
                                  % (nm, rec["g"], r.rc, r.stderr[-1500:]))
 
@@ -112,6 +135,8 @@ RE_REG = re.compile(r"^  Dtool_(\w+)_RegisterTypes\(\);$", re.M)
 RE_DEFS = re.compile(r"^  const LibraryDef \*defs\[\] = \{(.*)nullptr\};$", re.M)
 RE_INST = re.compile(r"^    Dtool_(\w+)_BuildInstants\(module\);$", re.M)
 RE_CYCLE = re.compile(r"^  (\w+(?: -> \w+)+)$", re.M)
+RE_PYINIT = re.compile(r"^PyObject \*PyInit_(\w+)\(\) \{$", re.M)
+RE_MODNAME = re.compile(r'PyModuleDef_HEAD_INIT,\n  "([^"]*)",')
 REPORT = "Circular dependency between libraries detected:"
 
 
@@ -124,58 +149,55 @@ def project(text, stderr):
         reg3=RE_REG.findall(body3), reg2=RE_REG.findall(body2),
         defs3=defs(body3), defs2=defs(body2),
         inst3=RE_INST.findall(body3), inst2=RE_INST.findall(body2),
+        pyinit=RE_PYINIT.findall(text), modname=RE_MODNAME.findall(text),
         nrep=stderr.count(REPORT),
         cycles=[m.split(" -> ") for m in RE_CYCLE.findall(stderr)])
 
 
-def expected(rec, names):
+def expected(rec, names, naming=("M", "M")):
     order = [names[i - 1] for i in rec["order"]]
     return dict(ext_reg=order, ext_def=order, ext_inst=order, reg3=order, reg2=order,
                 defs3=[order], defs2=[order], inst3=order, inst2=order, nrep=rec["nrep"],
+                pyinit=[naming[1]], modname=[naming[0]],
                 cycles=[[names[i - 1] for i in c] for c in rec["cycles"]])
 
 
-def project_trace(path, names):
-    """Hook events of one interrogate_module run with library names projected to map ranks
-    (the order of the ModDep events, which is the iteration order of the std::map)."""
-    evs = []
+def project_trace(path, names, kinds):
+    """Hook events of one interrogate_module run; library names are projected to their rank among ALL
+    libraries whose database was given (name order = the spec's numbering); the execution starts with
+    the kinds of those libraries.  Returns (events, number of hook events seen)."""
+    rank = {nm: i + 1 for i, nm in enumerate(names[:len(kinds)])}
+    evs = [{"e": "ModKinds", "kinds": list(kinds)}]
+    nhook = 0
     if not os.path.exists(path):
-        return evs
-    rank = {}
+        return evs, 0
     for line in open(path):
         line = line.strip()
         if not line:
             continue
         e = json.loads(line)
         if e["e"] == "ModDep":
-            rank[e["lib"]] = len(rank) + 1
-    keys = list(rank)
-    if sorted(keys, key=lambda x: x.encode()) != keys:
-        evs.append({"e": "ModDep", "lib": -1, "deps": []})      # map not in name order: rejected by the spec
-    for line in open(path):
-        line = line.strip()
-        if not line:
-            continue
-        e = json.loads(line)
-        if e["e"] == "ModDep":
-            evs.append({"e": "ModDep", "lib": rank[e["lib"]], "deps": [rank.get(d, 0) for d in e["deps"]]})
+            evs.append({"e": "ModDep", "lib": rank.get(e["lib"], 0), "deps": [rank.get(d, 0) for d in e["deps"]]})
         elif e["e"] == "ModPlace":
             evs.append({"e": "ModPlace", "lib": rank.get(e["lib"], 0)})
         elif e["e"] == "ModBreak":
             evs.append({"e": "ModBreak", "from": rank.get(e["from"], 0), "to": rank.get(e["to"], 0), "len": e["len"]})
         elif e["e"] == "ModReport":
             evs.append({"e": "ModReport"})
-    return evs
+        else:
+            continue
+        nhook += 1
+    return evs, nhook
 
 
-def module_run(out, ins, oc, trace=None, extra=()):
-    if os.path.exists(os.path.join(out, oc)):
+def module_run(out, ins, oc, trace=None, naming=("M", "M"), backend="-python-native"):
+    if oc and os.path.exists(os.path.join(out, oc)):
         os.remove(os.path.join(out, oc))
-    r = run.run_tool("interrogate_module", ["-python-native", "-module", "M", "-library", "M", "-oc", oc]
-                     + list(extra) + list(ins), cwd=out, timeout=MODULE_TIMEOUT, outputs=(oc,), trace=trace)
+    argv = [backend, "-module", naming[0], "-library", naming[1]] + (["-oc", oc] if oc else []) + list(ins)
+    outs = (oc,) if oc else ()
+    r = run.run_tool("interrogate_module", argv, cwd=out, timeout=MODULE_TIMEOUT, outputs=outs, trace=trace)
     if r.timed_out:        # a hang is reported only if it repeats
-        r = run.run_tool("interrogate_module", ["-python-native", "-module", "M", "-library", "M", "-oc", oc]
-                         + list(extra) + list(ins), cwd=out, timeout=4 * MODULE_TIMEOUT, outputs=(oc,), trace=trace)
+        r = run.run_tool("interrogate_module", argv, cwd=out, timeout=4 * MODULE_TIMEOUT, outputs=outs, trace=trace)
         if r.timed_out:
             HANGS.append(list(ins))
             r.stderr = r.stderr[:2000]
@@ -204,44 +226,115 @@ def orders_for(rec, tier):
 
 
 def replay_graph(ctx, rec, root, tier):
-    """All module runs of one digraph.  Returns (n_runs, mismatches, trace events, info)."""
+    """All -python-native module runs of one case.  Returns (n_runs, mismatches, trace events, info)."""
     h = ghash(rec)
     names = SCHEMES[h % len(SCHEMES)]
     variant = (h // 7) % 3
+    naming = NAMINGS[(h // 31) % len(NAMINGS)]
     render(rec, names, variant, root)
-    interrogate_libs(rec, names, root)
+    interrogate_libs(rec, names, root, module=naming[0])
     out = os.path.join(root, "out")
-    exp = expected(rec, names)
+    exp = expected(rec, names, naming)
     bad, events, nrun = [], [], 0
-    for k, perm in enumerate(orders_for(rec, tier)):
+    arglists = [[names[i - 1] + ".in" for i in perm] for perm in orders_for(rec, tier)]
+    # the same database named twice (also under another spelling): still every library once
+    first = arglists[0]
+    arglists.append(first + [first[0]])
+    arglists.append([first[-1]] + first[:-1] + ["./" + first[-1]] if len(first) > 1 else ["./" + first[0], first[0]])
+    for k, ins in enumerate(arglists):
         if len(HANGS) >= MAX_HANGS:
             break
-        ins = [names[i - 1] + ".in" for i in perm]
         oc = "M_%d.cxx" % k
         tr = os.path.join(out, "tr_%d.ndjson" % k)
-        r = module_run(out, ins, oc, trace=tr)
+        r = module_run(out, ins, oc, trace=tr, naming=naming)
         nrun += 1
-        case = dict(n=rec["n"], graph=rec["g"], names=names[:rec["n"]], variant=variant,
-                    argv_order=ins, expected=exp)
+        case = dict(n=rec["n"], kinds=rec["kinds"], graph=rec["g"], names=names[:rec["n"]], variant=variant,
+                    module=naming[0], library=naming[1], argv_order=ins, expected=exp)
+        what = "kinds %s graph %s (names %s, -module %s -library %s), .in order %s" % (
+            rec["kinds"], rec["g"], names[:rec["n"]], naming[0], naming[1], ins)
         if r.timed_out:
-            bad.append(("interrogate_module did not finish within %ds (graph %r, order %s)" % (
-                4 * MODULE_TIMEOUT, rec["g"], ins), dict(case, observed="timeout")))
+            bad.append(("interrogate_module did not finish within %ds (%s)" % (4 * MODULE_TIMEOUT, what),
+                        dict(case, observed="timeout")))
             break
         if r.rc != 0 or not r.outputs[oc]:
-            bad.append(("interrogate_module exit %s / output present=%s on loadable databases (graph %r, order %s)" % (
-                r.rc, r.outputs[oc], rec["g"], ins), dict(case, stderr=r.stderr[-1500:])))
+            bad.append(("interrogate_module exit %s / output present=%s on loadable databases (%s)" % (
+                r.rc, r.outputs[oc], what), dict(case, stderr=r.stderr[-1500:])))
             continue
         got = project(open(os.path.join(out, oc)).read(), r.stderr)
         if got != exp:
             diff = {f: (exp[f], got[f]) for f in exp if exp[f] != got[f]}
-            bad.append(("graph %s (names %s), .in order %s: expected %s, generated module has %s" % (
-                rec["g"], names[:rec["n"]], ins,
-                {f: v[0] for f, v in diff.items()}, {f: v[1] for f, v in diff.items()}),
+            bad.append(("%s: expected %s, generated module has %s" % (
+                what, {f: v[0] for f, v in diff.items()}, {f: v[1] for f, v in diff.items()}),
                 dict(case, observed=got, stderr=r.stderr[-1500:])))
-        ev = project_trace(tr, names)
-        if ev:
-            events.append(ev)
+        ev, nhook = project_trace(tr, names, rec["kinds"])
+        events.append((ev, nhook))
     return nrun, bad, events, dict(names=names[:rec["n"]], variant=variant)
+
+
+# ---------------------------------------------------------------------------------------------
+RE_PYWRAP_DEF = re.compile(r"^(_inP\w+)\(PyObject \*", re.M)
+RE_PYTABLE = re.compile(r'^  \{ "(\w+)", &(\w+), METH_VARARGS \},$', re.M)
+RE_PYPROTO = re.compile(r"^  PyObject \*(\w+)\(PyObject \*self, PyObject \*args\);$", re.M)
+
+
+def python_backend(ctx, rec, root):
+    """The -python back-end: the module's method table lists every by-name wrapper of every library of
+    the module exactly once - function-only libraries included, whatever the .in order, also when a .in
+    is named twice - and none of a library that belongs to another module."""
+    h = ghash(rec)
+    names = SCHEMES[(h // 3) % len(SCHEMES)]
+    naming = NAMINGS[(h // 11) % len(NAMINGS)]
+    n = rec["n"]
+    render(rec, names, 0, root)
+    interrogate_libs(rec, names, root, module=naming[0], backend=("-python", "-fnames"), prefix="P")
+    out = os.path.join(root, "out")
+    # one more library, of ANOTHER module
+    fdir = os.path.join(root, "src", "Foreign")
+    os.makedirs(fdir, exist_ok=True)
+    open(os.path.join(fdir, "Foreign.h"), "w").write("#pragma once\n__begin_publish\nint foreign_fn(int a);\n__end_publish\n")
+    r = run.run_tool("interrogate", ["-python", "-fnames", "-module", "othermod", "-library", "Foreign", "-od", "PForeign.in",
+                                     "-oc", "PForeign.cxx", "../src/Foreign/Foreign.h"], cwd=out, timeout=120)
+    if r.rc != 0:
+        raise MachineryError("interrogate -python failed on the foreign library: " + r.stderr[-800:])
+    want, foreign = [], RE_PYWRAP_DEF.findall(open(os.path.join(out, "PForeign.cxx")).read())
+    per_lib = {}
+    for nm in names[:n]:
+        per_lib[nm] = RE_PYWRAP_DEF.findall(open(os.path.join(out, "P%s.cxx" % nm)).read())
+        want += per_lib[nm]
+    for i, nm in enumerate(names[:n]):
+        if (rec["kinds"][i] in ("both", "funcs")) != bool(per_lib[nm]):
+            raise MachineryError("interrogate -python: library %s of kind %s has wrappers %s" % (nm, rec["kinds"][i], per_lib[nm]))
+    if not foreign:
+        raise MachineryError("the foreign library has no python wrappers")
+    ins0 = ["P%s.in" % nm for nm in names[:n]]
+    arglists = [(ins0 + ["PForeign.in"], False), (["PForeign.in"] + ins0[::-1], False),
+                (ins0 + [ins0[0], "PForeign.in", "./" + ins0[-1]], True)]
+    bad, nrun = [], 0
+    for k, (ins, dup) in enumerate(arglists):
+        oc = "P_%d.cxx" % k
+        r = module_run(out, ins, oc, naming=naming, backend="-python")
+        nrun += 1
+        case = dict(n=n, kinds=rec["kinds"], names=names[:n], module=naming[0], library=naming[1], argv=ins,
+                    expected_wrappers=sorted(want), stderr=r.stderr[-800:])
+        if r.rc != 0 or r.timed_out or not r.outputs[oc]:
+            bad.append(("interrogate_module -python exit %s (timeout %s) on loadable databases %s" % (r.rc, r.timed_out, ins),
+                        case, []))
+            continue
+        text = open(os.path.join(out, oc)).read()
+        table = [a for a, b in RE_PYTABLE.findall(text)]
+        protos = RE_PYPROTO.findall(text)
+        m = re.search(r"^(\d+) python function wrappers exported", r.stdout + r.stderr, re.M)
+        got = dict(table=sorted(table), protos=sorted(protos), count=int(m.group(1)) if m else None,
+                   init=("PyInit_" + naming[1]) in text)
+        exp = dict(table=sorted(want), protos=sorted(want), count=len(want), init=True)
+        if got != exp:
+            bad.append(("-python back-end, kinds %s (names %s, -module %s -library %s), arguments %s: the method table should "
+                        "list each of the %d wrappers of the module's libraries once; it has %d entries (%d distinct, %d of "
+                        "another module), %d prototypes, reports %s" % (
+                            rec["kinds"], names[:n], naming[0], naming[1], ins, len(want), len(table), len(set(table)),
+                            len(set(table) & set(foreign)), len(protos), got["count"]),
+                        dict(case, observed=got), [K_DUP] if dup else []))
+    return nrun, bad
 
 
 # ---------------------------------------------------------------------------------------------
@@ -277,6 +370,10 @@ def build_and_import(ctx, rec, root):
         raise MachineryError("link of a generated C16 module failed: " + p.stdout[-1500:])
     script = ["import sys, json", "sys.path.insert(0, '.')", "import M", "res = {}"]
     for a in range(1, n + 1):
+        if rec["kinds"][a - 1] == "funcs":
+            script.append("res['ff%d'] = M.ff%d(1)" % (a, a))
+        if rec["kinds"][a - 1] != "both":
+            continue
         script.append("res['X%d'] = M.X%d().fx%d()" % (a, a, a))
         for b in g[a - 1]:
             script.append("res['sub%d_%d'] = issubclass(M.Y%d_%d, M.X%d)" % (a, b, a, b, b))
@@ -287,6 +384,10 @@ def build_and_import(ctx, rec, root):
                        stderr=subprocess.PIPE, text=True, timeout=120)
     want = {}
     for a in range(1, n + 1):
+        if rec["kinds"][a - 1] == "funcs":
+            want["ff%d" % a] = a + 1
+        if rec["kinds"][a - 1] != "both":
+            continue
         want["X%d" % a] = a
         for b in g[a - 1]:
             want["sub%d_%d" % (a, b)] = True
@@ -297,8 +398,8 @@ def build_and_import(ctx, rec, root):
     except ValueError:
         got = None
     if got != want:
-        return ("import of the generated module for acyclic graph %r: expected %s, got rc=%s %s" % (
-            g, want, p.returncode, got), dict(graph=g, stderr=p.stderr[-1500:], stdout=p.stdout[-500:]))
+        return ("import of the generated module for kinds %r acyclic graph %r: expected %s, got rc=%s %s" % (
+            rec["kinds"], g, want, p.returncode, got), dict(kinds=rec["kinds"], graph=g, stderr=p.stderr[-1500:], stdout=p.stdout[-500:]))
     return None, None
 
 
@@ -328,40 +429,94 @@ def failure_cases(ctx, rec, root, tier):
         poss = range(n) if not kind.startswith("truncated") else [bi % n]
         for pos in poss:
             for mode in (["-python-native"], ["-python"]) if not kind.startswith("truncated") else (["-python-native"],):
-                items.append((kind, fn, pos, mode, len(items)))
+                items.append((kind, fn, pos, mode, len(items), True))
+    # no output file requested at all: a database that fails to load is still an error
+    for bi, (kind, content) in enumerate(bads[:5]):
+        for mode in (["-python-native"], ["-python"], []):
+            items.append((kind, "bad%d.in" % bi, bi % n, mode, len(items), False))
 
     def one(it):
-        kind, fn, pos, mode, k = it
+        kind, fn, pos, mode, k, with_oc = it
         ins = list(good)
         ins[pos] = fn
         oc = "F_%d.cxx" % k
         stale = (k % 2 == 0)
         if stale:
             open(os.path.join(out, oc), "w").write("// stale output of an earlier run\n")
-        r = run.run_tool("interrogate_module", mode + ["-module", "M", "-library", "M", "-oc", oc] + ins,
-                         cwd=out, timeout=MODULE_TIMEOUT, outputs=(oc,))
+        argv = mode + ["-module", "M", "-library", "M"] + (["-oc", oc] if with_oc else []) + ins
+        r = run.run_tool("interrogate_module", argv, cwd=out, timeout=MODULE_TIMEOUT, outputs=(oc,))
         if r.timed_out:
-            r = run.run_tool("interrogate_module", mode + ["-module", "M", "-library", "M", "-oc", oc] + ins,
-                             cwd=out, timeout=4 * MODULE_TIMEOUT, outputs=(oc,))
-        ok = (not r.timed_out) and r.rc not in (0, None) and r.signal == 0 and not r.outputs[oc]
-        return ok, dict(kind=kind, position=pos, mode=mode[0], argv=ins, rc=r.rc, signal=r.signal,
-                        timed_out=r.timed_out, output_left=r.outputs[oc], stale_output_before=stale,
+            r = run.run_tool("interrogate_module", argv, cwd=out, timeout=4 * MODULE_TIMEOUT, outputs=(oc,))
+        left = r.outputs[oc] if with_oc else False        # without -oc the stale file is none of the tool's business
+        ok = (not r.timed_out) and r.rc not in (0, None) and r.signal == 0 and not left
+        return ok, dict(kind=kind, position=pos, mode=(mode or ["(default -c)"])[0], argv=argv, rc=r.rc, signal=r.signal,
+                        timed_out=r.timed_out, output_left=left, stale_output_before=stale, with_oc=with_oc,
                         stderr=r.stderr[-600:])
     res = run.pmap(one, items)
     nbad = 0
     for ok, info in res:
         if not ok:
             nbad += 1
-            ctx.violation("a database that fails to load (%s at position %d, %s): exit %s, signal %s, timeout %s, "
-                          "output file left=%s" % (info["kind"], info["position"], info["mode"], info["rc"],
-                                                   info["signal"], info["timed_out"], info["output_left"]), info)
+            ctx.violation("a database that fails to load (%s at position %d, %s%s): exit %s, signal %s, timeout %s, "
+                          "output file left=%s" % (info["kind"], info["position"], info["mode"],
+                                                   "" if info["with_oc"] else ", no -oc", info["rc"],
+                                                   info["signal"], info["timed_out"], info["output_left"]), info,
+                          classes=[] if info["with_oc"] else [K_NOOC])
     return len(res)
 
 
 # ---------------------------------------------------------------------------------------------
+def dup_export_cases(ctx, root):
+    """One class exported (fully defined, global) by TWO libraries: Lb owns Base, Lc re-exports it with
+    `forcetype Base`, La derives from it.  Which of the two the merged database attributes Base to depends
+    on the load order (C13's subject), so the input digraph is not a function of the headers and the exact
+    order is not claimed.  Claimed in every .in order: exit 0, each library exactly once and consistently in
+    all lists, La after at least one exporter of Base; and the hook trace (the digraph as the tool saw it)
+    is validated by ModuleInitTrace like any other."""
+    src = os.path.join(root, "src")
+    out = os.path.join(root, "out")
+    os.makedirs(src); os.makedirs(out)
+    open(os.path.join(src, "base.h"), "w").write("#pragma once\nclass Base {\n__published:\n  Base() {}\n  int bv() { return 1; }\n};\n")
+    open(os.path.join(src, "derived.h"), "w").write('#pragma once\n#include "base.h"\nclass Derived : public Base {\n__published:\n  Derived() {}\n};\n')
+    open(os.path.join(src, "other.h"), "w").write('#pragma once\n#include "base.h"\nclass Other {\n__published:\n  Other() {}\n};\n')
+    open(os.path.join(src, "other.N"), "w").write("forcetype Base\n")
+    libs = {"La": "derived.h", "Lb": "base.h", "Lc": "other.h"}
+    os.makedirs(os.path.join(out, "inc"))
+    for nm, hdr in libs.items():
+        # base.h is found through -I (not in the working directory, not next to the includer's name on the command line)
+        r = run.run_tool("interrogate", ["-python-native", "-module", "M", "-library", nm, "-od", nm + ".in", "-oc", nm + ".cxx",
+                                         "-I", "../src", "../src/" + hdr], cwd=out, timeout=120)
+        if r.rc != 0:
+            raise MachineryError("interrogate failed on the dup-export library %s: %s" % (nm, r.stderr[-800:]))
+    names = sorted(libs)
+    bad, events = [], []
+    for k, perm in enumerate(itertools.permutations(names)):
+        ins = [nm + ".in" for nm in perm]
+        oc = "D_%d.cxx" % k
+        tr = os.path.join(out, "trd_%d.ndjson" % k)
+        r = module_run(out, ins, oc, trace=tr)
+        if r.rc != 0 or r.timed_out or not r.outputs[oc]:
+            bad.append(("interrogate_module exit %s (timeout %s) when Base is exported by two libraries, order %s" % (
+                r.rc, r.timed_out, ins), dict(argv=ins, stderr=r.stderr[-800:])))
+            continue
+        got = project(open(os.path.join(out, oc)).read(), r.stderr)
+        lists = [got[f] for f in ("ext_reg", "ext_def", "ext_inst", "reg3", "reg2", "inst3", "inst2")] + got["defs3"] + got["defs2"]
+        order = lists[0]
+        ok = all(l == order for l in lists) and sorted(order) == names and \
+            order.index("La") > min(order.index("Lb"), order.index("Lc"))
+        if not ok:
+            bad.append(("Base exported by Lb and (forcetype) Lc, Derived in La, .in order %s: every library once, the same "
+                        "order in all lists and La after Lb or Lc expected; generated module has %s" % (ins, lists),
+                        dict(argv=ins, observed=got, stderr=r.stderr[-800:])))
+        events.append(project_trace(tr, names, ["both", "both", "both"]))
+    return len(list(itertools.permutations(names))), bad, events
+
+
+# ---------------------------------------------------------------------------------------------
 def validate_traces(ctx, all_events):
-    if not all_events:
+    if not sum(nh for ev, nh in all_events):
         raise MachineryError("C16: the hooks produced no ModDep/ModPlace events (hooks missing from the build?)")
+    all_events = [ev for ev, nh in all_events]
     groups = [all_events[i::NCPU] for i in range(NCPU)]
     groups = [g for g in groups if g]
 
@@ -413,12 +568,16 @@ def run_check(ctx):
         raise MachineryError("ModuleInit: actions never taken: %s" % vac)
     seen, recs = set(), []
     for r in tlc.read_dump(dump):
-        key = json.dumps([r["n"], r["g"]])
+        key = gkey(r)
         if key not in seen:
             seen.add(key); recs.append(r)
-    want = sum(2 ** (n * (n - 1)) for n in range(1, 4 if tier == "quick" else 5))
+    # sum over the number m of libraries with classes: C(n,m) * 3^(n-m) kind assignments x 2^(m(m-1)) digraphs
+    from math import comb
+    want = sum(comb(n, m) * 3 ** (n - m) * 2 ** (m * (m - 1)) for n in range(1, 4 if tier == "quick" else 5)
+               for m in range(n + 1))
     if len(recs) != want:
-        raise MachineryError("expected %d digraphs from TLC, got %d" % (want, len(recs)))
+        raise MachineryError("expected %d (kinds, digraph) cases from TLC, got %d" % (want, len(recs)))
+    recs.sort(key=gkey)
     # larger digraphs: a fixed family on 4 and 5 libraries (both tiers), n = 5 by simulation (thorough)
     fam_dump = os.path.join(ctx.tmp, "dumpfam.ndjson")
     fres = tlc.run("ModuleInitMC", "ModuleInit_family", env={"VERIF_DUMP": fam_dump}, timeout=900)
@@ -428,12 +587,12 @@ def run_check(ctx):
     tlc.must_ok(fres, "family")
     fam = []
     for r in tlc.read_dump(fam_dump):
-        key = json.dumps([r["n"], r["g"]])
+        key = gkey(r)
         if key not in seen:
             seen.add(key); fam.append(r)
     if tier == "quick" and len(fam) < 20:
         raise MachineryError("family of larger digraphs: only %d dumped" % len(fam))
-    fam.sort(key=lambda r: json.dumps([r["n"], r["g"]]))
+    fam.sort(key=gkey)
     recs += fam
     if tier == "thorough":
         sim_dump = os.path.join(ctx.tmp, "dump5.ndjson")
@@ -445,16 +604,19 @@ def run_check(ctx):
         tlc.must_ok(sres, "simulation")
         extra = []
         for r in tlc.read_dump(sim_dump):
-            key = json.dumps([r["n"], r["g"]])
+            key = gkey(r)
             if key not in seen:
                 seen.add(key); extra.append(r)
         extra.sort(key=ghash)
         recs += extra[:150]
     ctx.cov["exhaustive"] = True
-    ctx.cov["rule"] = ("TLC enumerates every digraph without self loops on 1..MaxN libraries and runs the mechanism; "
-                       "every digraph is replayed through interrogate + interrogate_module in every command-line "
-                       "order of the .in files (n<=3; a fixed stratified choice of orders above); non-trivial = the "
-                       "digraph has at least one edge; distinct = distinct (n, edge set)")
+    ctx.cov["rule"] = ("TLC enumerates every assignment of kinds {classes, functions only, types only, nothing} to 1..MaxN "
+                       "libraries and every digraph without self loops among the libraries with classes, and runs the "
+                       "mechanism; every case is replayed through interrogate + interrogate_module -python-native in every "
+                       "command-line order of the .in files (n<=3; a fixed stratified choice of orders above) plus two "
+                       "argument lists naming a .in twice, under a hash-chosen naming (-library = / != -module, dotted "
+                       "module names, prefix names); a fixed third of the cases also through the -python back-end; "
+                       "non-trivial = at least one edge or one library without classes; distinct = distinct (kinds, edge set)")
 
     def one(irec):
         i, rec = irec
@@ -475,7 +637,7 @@ def run_check(ctx):
         nrun, bad, events, info = resu
         nruns += nrun
         all_events += events
-        if any(rec["g"]):
+        if any(rec["g"]) or any(k != "both" for k in rec["kinds"]):
             nontrivial += 1
         for desc, payload in bad:
             ctx.violation(desc, payload)
@@ -488,13 +650,48 @@ def run_check(ctx):
     ctx.notes["cyclic_digraphs"] = sum(1 for r in recs if is_cyclic(r))
     for rec in [r for r in recs if r["n"] == 3][5::13][:5]:
         h = ghash(rec)
-        ctx.sample(dict(n=rec["n"], graph=rec["g"], names=SCHEMES[h % len(SCHEMES)][:rec["n"]],
+        ctx.sample(dict(n=rec["n"], kinds=rec["kinds"], graph=rec["g"], names=SCHEMES[h % len(SCHEMES)][:rec["n"]],
+                        naming=NAMINGS[(h // 31) % len(NAMINGS)],
                         expected_order=rec["order"], broken=rec["broken"], cycles=rec["cycles"], reports=rec["nrep"]))
 
+    # ---- the -python back-end ------------------------------------------------------------------
+    psel = [r for r in recs if r["n"] <= 3 and (ghash(r) % 3 == 0 or tier == "thorough")]
+
+    def pyb(irec):
+        i, rec = irec
+        root = os.path.join(ctx.tmp, "py%05d" % i)
+        try:
+            return python_backend(ctx, rec, root), None
+        except MachineryError as e:
+            return None, e
+        finally:
+            if not os.environ.get("VERIF_KEEP"):
+                shutil.rmtree(root, ignore_errors=True)
+    npy = 0
+    for resu, err in run.pmap(pyb, list(enumerate(psel))):
+        if err:
+            raise err
+        npy += resu[0]
+        for desc, payload, classes in resu[1]:
+            ctx.violation(desc, payload, classes=classes)
+    ctx.notes["python_backend_runs"] = npy
+    ctx.cov["evaluations"] += npy
+    ctx.cov["traces_validated_against_impl"] += npy
+
+    # ---- one class exported by two libraries -----------------------------------------------------
+    ndup, dbad, devents = dup_export_cases(ctx, os.path.join(ctx.tmp, "dupexport"))
+    for desc, payload in dbad:
+        ctx.violation(desc, payload)
+    all_events += devents
+    ctx.notes["dup_export_runs"] = ndup
+    ctx.cov["evaluations"] += ndup
+
     # ---- acyclic samples: build and import -----------------------------------------------
-    acyc = [r for r in recs if not is_cyclic(r) and r["n"] >= 2 and any(r["g"])]
+    acyc = [r for r in recs if not is_cyclic(r) and r["n"] >= 2 and any(r["g"]) and all(k == "both" for k in r["kinds"])]
     acyc.sort(key=lambda r: (-sum(len(x) for x in r["g"]), ghash(r)))
-    pick = acyc[:3] + acyc[3::max(1, len(acyc) // (5 if tier == "quick" else 20))][:(5 if tier == "quick" else 20)]
+    mixed = [r for r in recs if not is_cyclic(r) and r["n"] == 3 and any(r["g"]) and "funcs" in r["kinds"]]
+    mixed.sort(key=ghash)
+    pick = acyc[:3] + acyc[3::max(1, len(acyc) // (4 if tier == "quick" else 20))][:(4 if tier == "quick" else 20)] + mixed[:3]
 
     def imp(irec):
         i, rec = irec
@@ -518,7 +715,8 @@ def run_check(ctx):
     # ---- failure path ------------------------------------------------------------------------
     nfail = 0
     fsel = [r for r in recs if r["n"] == 2 and r["g"] == [[2], []]] + \
-           [r for r in recs if r["n"] == 3 and r["g"] == [[2], [3], [1]]]
+           [r for r in recs if r["n"] == 3 and r["g"] == [[2], [3], [1]]] + \
+           [r for r in recs if r["n"] == 2 and r["kinds"] == ["funcs", "types"]]
     for i, rec in enumerate(fsel):
         nfail += failure_cases(ctx, rec, os.path.join(ctx.tmp, "fail%d" % i), tier)
     if not nfail:
@@ -533,4 +731,6 @@ def run_check(ctx):
     ctx.cov["traces_validated_against_impl"] += nval
     ctx.assumptions.append("every edge target is a library of the same module (cross-module bases are outside the "
                            "property's quantifier); typedef edges are realised with a forcetype'd alias typedef, the "
-                           "only way interrogate exports a typedef of another library's class")
+                           "only way interrogate exports a typedef of another library's class; when one class is exported "
+                           "by two libraries the merged attribution depends on the load order (C13), so only the weak "
+                           "order statement and the trace are claimed there")
